@@ -40,4 +40,32 @@ TabDump ==
                                               ambM |-> AmbM(routes[ij[1]], routes[ij[2]]),
                                               f8a  |-> F8a(routes[ij[1]], routes[ij[2]])] : ij \in Pairs(routes)},
                                 us      |-> {TabUri(routes, u) : u \in {x \in TableUris(routes) : UriLegal(x)}}])>>)
+
+----------------------------------------------------------------------------
+(* Seeded simulation for depth (tlc -simulate): long patterns and large     *)
+(* tables are drawn at random instead of enumerated; half of the routes     *)
+(* added are position-wise variants of a route already in the table (same   *)
+(* text in another spelling, a parameter, another literal), which is where  *)
+(* overlaps live.  The same laws are checked and the same records dumped.   *)
+
+RandPattern == [sc   |-> RandomElement(Schemes),
+                abs  |-> RandomElement(AbsFlags),
+                segs |-> [i \in 1..RandomElement(1..MaxSegs) |-> RandomElement(SegSet)]]
+AltSegs(g) == {g} \cup [t : {"par"}, s : ParSyms]
+              \cup (IF Lit(g) THEN {[t |-> "lit", s |-> x] : x \in {y \in LitSyms : SymDec[y] = SymDec[g.s]}}
+                              ELSE [t : {"lit"}, s : LitSyms])
+              \cup {RandomElement(SegSet)}
+VariantOf(p) == [p EXCEPT !.segs = [i \in 1..N(p) |-> RandomElement(AltSegs(p.segs[i]))]]
+
+SimAdd == /\ built = "no" /\ Len(routes) < MaxRoutes
+          /\ \E p \in {IF routes # <<>> /\ RandomElement({TRUE, FALSE})
+                          THEN VariantOf(routes[RandomElement(1..Len(routes))])
+                          ELSE RandPattern} :
+                /\ WFM(p)
+                /\ routes' = Append(routes, p)
+                /\ lastAct' = [k |-> "add", p |-> p]
+                /\ UNCHANGED built
+SimBuild == /\ Len(routes) = MaxRoutes \/ (Len(routes) >= 2 /\ RandomElement(1..4) = 1)
+            /\ Build
+SimNext == SimAdd \/ SimBuild \/ FindRoute
 =============================================================================
